@@ -118,6 +118,8 @@ impl CompactionWorker {
                     "All batches complete, scheduling deletion of drained segments"
                 );
             }
+            #[cfg(sneldb_verif)]
+            crate::verif_hooks::step_async("compact.before_reclaim").await;
             self.handover.schedule_reclaim(all_drained_segments);
         } else {
             if tracing::enabled!(tracing::Level::DEBUG) {
